@@ -1,12 +1,14 @@
 (* C03 -- property theorems only: statement + exact + Print Assumptions. *)
-From Coq Require Import List ZArith.
-From LJT Require Import model.Huff model.Seq model.Prog gen.GenNatOrder proofs.NatOrderProofs.
+From Coq Require Import List ZArith Bool.
+From LJT Require Import model.Huff model.Seq model.Prog model.Script gen.GenNatOrder
+  proofs.NatOrderProofs proofs.SeqBits proofs.SeqProofs proofs.ProgProofs proofs.ScriptProofs
+  proofs.ChainProofs proofs.ExampleCodec.
 Import ListNotations.
 Local Open Scope Z_scope.
 
-(* the model's zigzag table is jutils.c jpeg_natural_order[] of the tree under test:
-   a permutation of 0..63 with 16 trailing 63s; jchuff.c's unrolled kloop list is
-   entries 1..63 of it *)
+(* ---- tie to the source: the model's zigzag table is jutils.c jpeg_natural_order[] of the
+   tree under test: a permutation of 0..63 with 16 trailing 63s; jchuff.c's unrolled kloop
+   list is entries 1..63 of it *)
 Theorem C03_natural_order :
   map Z.of_nat natural_order = gen_natural_order /\
   gen_kloop_order = firstn 63 (skipn 1 gen_natural_order) /\
@@ -16,3 +18,160 @@ Theorem C03_natural_order :
    (forall i, (i < 64)%nat -> exists k, (k < 64)%nat /\ order k = i)).
 Proof. exact nat_order_facts. Qed.
 Print Assumptions C03_natural_order.
+
+(* the constants the models use are the ones in the source (ZRL thresholds, EOBRUN flush
+   0x7FFF at both places, MAX_CORR_BITS, nbits limits, restart numbering mask, k += 15) *)
+Theorem C03_source_constants :
+  gen_dctsize2 = DCTSIZE2 /\ gen_seq_zrl_threshold = 16 * gen_seq_run_step /\ gen_seq_run_step = 16 /\
+  gen_seq_dc_extra_bits = 1 /\ gen_max_coef_bits_offset = 2 /\ gen_restart_num_mask = 7 /\
+  gen_eobrun_flush_ac_first = EOBRUN_FLUSH /\ gen_eobrun_flush_ac_refine = EOBRUN_FLUSH /\
+  gen_max_corr_bits = MAX_CORR_BITS /\ gen_prog_zrl_run_first = 15 /\ gen_prog_zrl_run_refine = 15 /\
+  gen_eobrun_max_nbits = 14 /\ gen_dec_zrl_r = 15 /\ gen_dec_zrl_skip = 15 /\
+  gen_pdec_zrl_r = 15 /\ gen_pdec_zrl_skip = 15.
+Proof. exact source_constants. Qed.
+Print Assumptions C03_source_constants.
+
+(* ---- (3) magnitude coding: for EVERY nonzero v (no bound), the nbits|v| low bits of
+   (v >= 0 ? v : v - 1) read back with GET_BITS and HUFF_EXTEND give v; the branch-free
+   HUFF_EXTEND of jdhuff.c agrees with the conditional one on 32-bit ints *)
+Theorem C03_magnitude_coding :
+  (forall v rest, v <> 0 ->
+     exists x, get_bits (nbits (Z.abs v)) (mag_bits v (nbits (Z.abs v)) ++ rest) = Some (x, rest) /\
+               huff_extend x (nbits (Z.abs v)) = v) /\
+  (forall v s, 1 <= s -> 2 ^ (s - 1) <= Z.abs v < 2 ^ s ->
+     huff_extend ((if v <? 0 then v - 1 else v) mod 2 ^ s) s = v) /\
+  (forall x s, 1 <= s <= 16 -> 0 <= x < 2 ^ s -> huff_extend_branchless x s = huff_extend x s) /\
+  (forall x, 0 < x -> 1 <= nbits x /\ 2 ^ (nbits x - 1) <= x < 2 ^ nbits x).
+Proof.
+  exact (conj mag_roundtrip (conj extend_low_bits (conj huff_extend_branchless_eq nbits_bounds))).
+Qed.
+Print Assumptions C03_magnitude_coding.
+
+(* ---- (1) one block: for every prefix-code codec pair (the property is a field of the
+   record), every 64-coefficient block the encoder accepts (its nbits range checks pass,
+   max_coef_bits <= 15) and every continuation of the bit stream *)
+Theorem C03_seq_block_roundtrip : forall (dc ac : codec) (mcb last_dc : Z) (b : list Z) (bits rest : list bool),
+  mcb <= 15 -> length b = 64%nat ->
+  enc_block dc ac mcb last_dc b = Some bits ->
+  dec_block dc ac last_dc (bits ++ rest) = Some (b, rest).
+Proof. intros dc ac mcb last_dc b bits rest H. exact (block_roundtrip dc ac mcb H last_dc b bits rest). Qed.
+Print Assumptions C03_seq_block_roundtrip.
+
+Example C03_seq_block_nonvacuous :
+  exists bits, enc_block fix8 fix8 10 5 ex_block = Some bits /\ length bits = 78%nat /\
+    dec_block fix8 fix8 5 (bits ++ [true; false; true]) = Some (ex_block, [true; false; true]).
+Proof. eexists. split; [vm_compute; reflexivity|]. split; vm_compute; reflexivity. Qed.
+
+(* ---- (2) a whole scan: every MCU list, every MCU layout (membership: interleaved or not),
+   every restart interval Ri (0 = none; dividing the MCU count or not), DC prediction chain
+   with reset at each restart, RSTn numbering mod 8, 1-padding and 0xFF stuffing *)
+Theorem C03_seq_scan_roundtrip : forall (dct act : nat -> codec) (mcb : Z) (mem : list nat) (ncomp Ri : nat)
+    (ms : list (list (list Z))) (bytes : list Z),
+  mcb <= 15 -> Forall (Forall (fun b => length b = 64%nat)) ms ->
+  seq_enc_scan dct act mcb mem ncomp Ri ms = Some bytes ->
+  seq_dec_scan dct act mem ncomp Ri (length ms) bytes = Some ms.
+Proof. exact seq_scan_roundtrip_thm. Qed.
+Print Assumptions C03_seq_scan_roundtrip.
+
+Example C03_seq_scan_nonvacuous :
+  let ms := [[ex_block; ex_block2; ex_block3]; [ex_block3; ex_block3; ex_block]; [ex_block2; ex_block; ex_block];
+             [ex_block; ex_block; ex_block2]; [ex_block3; ex_block2; ex_block2]] in
+  exists bytes, seq_enc_scan (fun _ => fix8) (fun _ => fix8) 10 [0; 0; 1]%nat 2 2 ms = Some bytes /\
+    In 255 bytes /\ seq_dec_scan (fun _ => fix8) (fun _ => fix8) [0; 0; 1]%nat 2 2 5 bytes = Some ms.
+Proof.
+  eexists. split; [vm_compute; reflexivity|]. split; [|vm_compute; reflexivity].
+  vm_compute. tauto.
+Qed.
+
+(* ---- (4) progressive: DC first / DC refine / AC first scans, all block lists, all restart
+   intervals, EOBRUN of any length (forced flush at 0x7FFF included) *)
+Theorem C03_dc_first_scan_roundtrip : forall dct mcb Al mem ncomp Ri ms cur bytes,
+  length cur = length ms ->
+  Forall (fun mc => length (snd mc) = length (fst mc)) (combine ms cur) ->
+  dcf_enc_scan dct mcb Al mem ncomp Ri ms = Some bytes ->
+  dcf_dec_scan dct Al mem ncomp Ri cur bytes =
+    Some (map (fun mc => dcf_res Al (fst mc) (snd mc)) (combine ms cur)).
+Proof. exact dcf_scan_roundtrip. Qed.
+Print Assumptions C03_dc_first_scan_roundtrip.
+
+Theorem C03_dc_refine_scan_roundtrip : forall Al Ri ms cur bytes,
+  length cur = length ms ->
+  Forall (fun mc => length (snd mc) = length (fst mc)) (combine ms cur) ->
+  dcr_enc_scan Al Ri ms = Some bytes ->
+  dcr_dec_scan Al Ri cur bytes = Some (map (fun mc => dcr_res Al (fst mc) (snd mc)) (combine ms cur)).
+Proof. exact dcr_scan_roundtrip. Qed.
+Print Assumptions C03_dc_refine_scan_roundtrip.
+
+(* the DC value stored after the first scan is the arithmetic-shift truncation; a refinement
+   scan at Al turns truncation at Al+1 into truncation at Al; at Al = 0 it is the value *)
+Theorem C03_dc_value_chain :
+  (forall Al b blk, 0 <= Al -> (0 < length blk)%nat ->
+     nth 0%nat blk 0 = dc_state (Al + 1) (nth 0%nat b 0) ->
+     nth 0%nat (dcr_block Al b blk) 0 = dc_state Al (nth 0%nat b 0)) /\
+  (forall v, dc_state 0 v = v).
+Proof. exact (conj dcr_block_value dc_state_0). Qed.
+Print Assumptions C03_dc_value_chain.
+
+Theorem C03_ac_first_scan_roundtrip : forall ac mcb Ss Se Al Ri bl cur bytes,
+  mcb <= 15 -> (1 <= Ss)%nat -> (Ss <= Se)%nat /\ (Se <= 63)%nat -> length cur = length bl ->
+  acf_enc_scan ac mcb Ss Se Al Ri bl = Some bytes ->
+  acf_dec_scan ac Ss Se Al Ri cur bytes = Some (acf_res_list Ss Se Al bl cur).
+Proof. exact acf_scan_roundtrip. Qed.
+Print Assumptions C03_ac_first_scan_roundtrip.
+
+(* what AC-first leaves: band positions hold sign(v) * ((|v| >> Al) << Al), the rest is untouched *)
+Theorem C03_ac_first_values : forall Ss Se Al b blk,
+  (Ss <= Se)%nat -> (Se <= 63)%nat -> length blk = 64%nat ->
+  (forall j, (Ss <= j <= Se)%nat -> nth (order j) blk 0 = 0) ->
+  length (acf_res Ss Se Al b blk) = 64%nat /\
+  forall j, (j < 64)%nat -> nth (order j) (acf_res Ss Se Al b blk) 0 =
+    if ((Ss <=? j) && (j <=? Se))%nat then ac_state Al (nth (order j) b 0) else nth (order j) blk 0.
+Proof. exact acf_res_spec. Qed.
+Print Assumptions C03_ac_first_values.
+
+(* more than 32767 consecutive all-zero blocks: the run is split at 0x7FFF and still decodes *)
+Example C03_eobrun_overflow_nonvacuous :
+  let bl := repeat (repeat 0 64) (Z.to_nat 32800) ++ [ex_block] ++ repeat (repeat 0 64) 3 in
+  exists bytes, acf_enc_scan fix8 10 1 63 0 0 bl = Some bytes /\
+    acf_dec_scan fix8 1 63 0 0 (repeat (repeat 0 64) (Z.to_nat 32804)) bytes =
+      Some (map (fun b => 0 :: skipn 1 b) bl).
+Proof. eexists. split; vm_compute; reflexivity. Qed.
+
+(* ---- (5) validate_script: an accepted progressive script codes every coefficient of every
+   component as the chain (0,a0),(a0,a0-1),...; DC before AC; DC data for every component;
+   the returned state is the last Al; script_complete = every chain present and ended at 0 *)
+Theorem C03_script_valid_chain : forall nc prec scans state, 0 <= nc ->
+  validate_script nc prec scans = inr (Progressive, state) ->
+  (forall c k, 0 <= c < nc -> 0 <= k < 64 -> chain_from (-1) (scans_of scans c k)) /\
+  (forall l1 s l2, scans = l1 ++ s :: l2 -> s_Ss s <> 0 -> forall c, In c (s_comps s) -> scans_of l1 c 0 <> []) /\
+  (forall c, 0 <= c < nc -> scans_of scans c 0 <> []) /\
+  (forall c k, 0 <= c < nc -> 0 <= k < 64 ->
+     nthZ (row_of (fst state) (Z.to_nat c)) (Z.to_nat k) = last_al (-1) (scans_of scans c k)) /\
+  (script_complete state = true ->
+     forall c k, 0 <= c < nc -> 0 <= k < 64 -> scans_of scans c k <> [] /\ last_al (-1) (scans_of scans c k) = 0).
+Proof. exact script_valid_chain_thm. Qed.
+Print Assumptions C03_script_valid_chain.
+
+Example C03_script_nonvacuous :
+  let sc := [ {| s_comps := [0; 1; 2]; s_Ss := 0; s_Se := 0; s_Ah := 0; s_Al := 1 |};
+              {| s_comps := [0]; s_Ss := 1; s_Se := 5; s_Ah := 0; s_Al := 2 |};
+              {| s_comps := [2]; s_Ss := 1; s_Se := 63; s_Ah := 0; s_Al := 1 |};
+              {| s_comps := [1]; s_Ss := 1; s_Se := 63; s_Ah := 0; s_Al := 1 |};
+              {| s_comps := [0]; s_Ss := 6; s_Se := 63; s_Ah := 0; s_Al := 2 |};
+              {| s_comps := [0]; s_Ss := 1; s_Se := 63; s_Ah := 2; s_Al := 1 |};
+              {| s_comps := [0; 1; 2]; s_Ss := 0; s_Se := 0; s_Ah := 1; s_Al := 0 |};
+              {| s_comps := [2]; s_Ss := 1; s_Se := 63; s_Ah := 1; s_Al := 0 |};
+              {| s_comps := [1]; s_Ss := 1; s_Se := 63; s_Ah := 1; s_Al := 0 |};
+              {| s_comps := [0]; s_Ss := 1; s_Se := 63; s_Ah := 1; s_Al := 0 |} ] in
+  exists st, validate_script 3 8 sc = inr (Progressive, st) /\ script_complete st = true.
+Proof. eexists. split; vm_compute; reflexivity. Qed.
+
+(* ---- successive approximation: per coefficient, the value functions of the four decoder
+   procedures composed along any chain of a complete accepted script give back the value *)
+Theorem C03_sa_chain_restores : forall nc prec scans st,
+  0 <= nc -> validate_script nc prec scans = inr (Progressive, st) -> script_complete st = true ->
+  forall c k v, 0 <= c < nc -> 0 <= k < 64 ->
+    (k = 0 -> run_chain dc_first_val dc_refine_val (scans_of scans c k) 0 v = v) /\
+    (k <> 0 -> run_chain ac_first_val ac_refine_val (scans_of scans c k) 0 v = v).
+Proof. exact sa_chain_restores. Qed.
+Print Assumptions C03_sa_chain_restores.
